@@ -1,3 +1,2 @@
 import PieModel.Props.C20
-open PieModel
-#print axioms C20_placeholder
+#print axioms PieModel.C20_placeholder
